@@ -259,10 +259,13 @@ def reader_ticks(prog, rep):
                                 e, neg = strip_not(ir.term_operand(cb, t["o"]))
                                 if e[0] == "bin" and e[1] in ("Ge", "Lt", "Gt", "Le") and "current_tick" in show(e):
                                     from ..effects import bool_edge
-                                    # bad edge: previous >= t  (or t <= previous)
-                                    if e[1] == "Ge":
+                                    # bad edge: previous >= t, in whichever orientation it is written (t <= previous)
+                                    op = e[1]
+                                    if "current_tick" not in show(e[2]):
+                                        op = {"Ge": "Le", "Le": "Ge", "Lt": "Gt", "Gt": "Lt"}[op]
+                                    if op == "Ge":
                                         bad = bool_edge(b, cb, not neg)
-                                    elif e[1] == "Lt":
+                                    elif op == "Lt":
                                         bad = bool_edge(b, cb, neg)
                                     else:
                                         continue
